@@ -295,12 +295,26 @@ pub enum BAir {
     MulLk { reps: usize, local: bool, global: bool },
     /// upstream FibAirLookups: preprocessed column, 3 public values, receives `mult` copies on "MulFib"
     FibLk { log_height: usize, global: bool, mult: u64 },
+    /// two periodic columns (periods 2 and 4, the same tables whatever the height): y = x·p0 + p1
+    Periodic,
 }
 
 impl<F: Field> BaseAir<F> for BAir {
+    fn num_periodic_columns(&self) -> usize {
+        match self {
+            BAir::Periodic => 2,
+            _ => 0,
+        }
+    }
+    fn periodic_columns(&self) -> Vec<Vec<F>> {
+        match self {
+            BAir::Periodic => PERIODIC_COLS.iter().map(|c| c.iter().map(|v| F::from_u64(*v)).collect()).collect(),
+            _ => vec![],
+        }
+    }
     fn width(&self) -> usize {
         match self {
-            BAir::Fib | BAir::FibLk { .. } | BAir::PubVal | BAir::Sub { .. } => 2,
+            BAir::Fib | BAir::FibLk { .. } | BAir::PubVal | BAir::Sub { .. } | BAir::Periodic => 2,
             BAir::Mul { reps, .. } => *reps,
             BAir::Add | BAir::AddNoNext => 3,
             BAir::MulLk { reps, .. } => reps * 3 + 1,
@@ -353,6 +367,7 @@ where
             BAir::Add | BAir::AddNoNext => eval_add(builder),
             BAir::Sub { .. } => eval_sub(builder),
             BAir::PubVal => eval_pubval(builder),
+            BAir::Periodic => eval_periodic(builder),
             BAir::MulLk { reps, local, global } => {
                 eval_mul_fib(builder, *reps);
                 let main = builder.main();
@@ -402,6 +417,7 @@ pub fn bair_instance<F: PrimeField64>(air: &BAir, rows: usize) -> (RowMajorMatri
         BAir::Sub { rows: r } => (sub_traces::<F>(*r).0, vec![]),
         BAir::PubVal => pubval_trace::<F>(rows),
         BAir::MulLk { reps, .. } => (mul_fib_trace::<F>(rows, *reps), vec![]),
+        BAir::Periodic => (periodic_trace::<F>(rows), vec![]),
     }
 }
 
